@@ -323,6 +323,9 @@ fn systematic_histories() -> Vec<History> {
         // (seed 103 of the sweep: unset, then set again as a plain shell variable)
         ("inherited-unset-then-plain", "unset VS_INHERITED", "VS_INHERITED=", "VS_INHERITED=plain-again"),
         ("inherited-unset-then-export", "unset VS_INHERITED", "true", "export VS_INHERITED=back"),
+        // (the test command points TMPDIR - where temporary files of helpers would go - at nothing:
+        // what it changed besides is carried all the same)
+        ("tmpdir-nowhere", "export VE1=kept; VS1=one; export TMPDIR=/nonexistent/dir/for/tmp", "VS1=\"$VS1 two\"; f1() { echo f; }", "export TMPDIR=/dev/null; VS1=three"),
         // (an inherited variable whose name contains the name of a never-carried one)
         ("inherited-lookalike-unset", "unset SUDO_UID", "true", "SUDO_UID=back"),
         ("inherited-lookalike-export-n", "export -n SUDO_UID", "VS1=$SUDO_UID", "export SUDO_UID"),
@@ -1462,10 +1465,15 @@ fn doc_cases(prop: &str) -> Vec<DocCase> {
             let preludes = [
                 "", "set -e", "set -u", "set -eu", "set -euo pipefail", "set -eu; unset OLDPWD", "cd /; unset OLDPWD; set -eu", "unset OLDPWD PWD; set -u",
                 "IFS=8", "IFS=0; set -e", "trap 'echo on-err' ERR; set -E", "shopt -s inherit_errexit; set -e", "set -o posix", "set -f", "set -C", "set -a",
-                "set -o pipefail; false | true", "umask 077", "exec 2>/dev/null", "shopt -s nullglob extglob", "set -eu; f() { return 80; }", "set -e; cd \"$(mktemp -d)\"; rmdir \"$PWD\"",
+                "set -o pipefail; false | true", "umask 077", "exec 2>/dev/null", "PATH=/nonexistent", "ulimit -f 0", "exec >&- 2>&-", "shopt -s nullglob extglob", "set -eu; f() { return 80; }", "set -e; cd \"$(mktemp -d)\"; rmdir \"$PWD\"",
             ];
             for (pi, p) in preludes.iter().enumerate() {
                 for script_mode in [false, true] {
+                    // (one shell for the whole script: with its streams closed scrut's own divider
+                    // lines are gone too, and scrut gives up - accepted, see section 0.2b)
+                    if script_mode && p.contains(">&-") {
+                        continue;
+                    }
                     for (custom, code) in [(None, 80), (Some(33), 33)] {
                         let sep = if p.is_empty() { "" } else { "; " };
                         let exit_form = if pi % 2 == 0 { format!("{}{}exit {}", p, sep, code) } else { format!("{}{}(exit {})", p, sep, code) };
